@@ -192,10 +192,15 @@ def r2_derivative_relations(ctx):
     # rigid-body arm: a is primary;  v = a/(iW), d = -a/W^2, masked by W != 0
     fn = ctx.src.func(O.UNC, "SolveUnc._solve_freq_rb")
     A = F.sym("A")
+    nrb = 0
     for st in walk_no_nested(fn):
         if isinstance(st, ast.Assign) and isinstance(st.targets[0], ast.Subscript) and isinstance(st.targets[0].value, ast.Name) \
-                and st.targets[0].value.id in ("v", "d") and "a_rb" in ast.unparse(st.value):
-            which = st.targets[0].value.id
+                and "a_rb" in ast.unparse(st.value) and "pvnz" in ast.unparse(st.targets[0].slice):
+            base = st.targets[0].value.id
+            which = base[0]
+            if which not in "vd":
+                continue
+            nrb += 1
             ev = Evaluator(env={"a_rb": A, "freqw": W, "freqw2": W * W}, src=ctx.src)
             val = ev.ev(st.value)
             want = A / (F.I * W) if which == "v" else -A / (W * W)
@@ -205,9 +210,17 @@ def r2_derivative_relations(ctx):
             ok = val.equals(want)
             ctx.check(ok, f"_solve_freq_rb: rigid-body {which} = a {'/(i W)' if which == 'v' else '* (-1/W^2)'}", st, None if ok else repr(val))
             # masked by pvnz on both sides
-            idx = ast.unparse(st.targets[0].slice).replace(" ", "").strip("()")
-            ok = idx == "rb,pvnz" and "[pvnz]" in ast.unparse(st.value) and "a_rb[:, pvnz]" in ast.unparse(st.value)
+            ok = "[pvnz]" in ast.unparse(st.value) and "a_rb[:, pvnz]" in ast.unparse(st.value)
             ctx.check(ok, f"_solve_freq_rb: the {which} write is restricted to non-zero frequencies on both sides", st)
+            # the value reaches the solution array on the rb rows, and only under the option that names it
+            if base != which:
+                fin = [s2 for s2 in walk_no_nested(fn) if isinstance(s2, ast.Assign) and ast.unparse(s2.targets[0]).replace(" ", "") == f"{which}[rb]"
+                       and ast.unparse(s2.value) == base]
+                zero = [s2 for s2 in walk_no_nested(fn) if isinstance(s2, ast.Assign) and ast.unparse(s2.targets[0]) == base
+                        and "np.zeros" in ast.unparse(s2.value)]
+                ok = len(fin) == 1 and len(zero) == 1
+                ctx.check(ok, f"_solve_freq_rb: `{base}` starts as zeros (0 Hz entries stay zero) and is stored to {which}[rb]", st)
+    ctx.check(nrb == 2, "_solve_freq_rb: rigid-body v and d relations bound", fn, nontrivial=False)
     pv = [s for s in walk_no_nested(fn) if isinstance(s, ast.Assign) and ast.unparse(s.targets[0]) == "pvnz"]
     ok = bool(pv) and ast.unparse(pv[0].value).replace(" ", "") == "freqw!=0"
     ctx.check(ok, "_solve_freq_rb: pvnz = (freqw != 0)", pv[0] if pv else fn)
@@ -350,27 +363,39 @@ def r5_solvepsd(ctx):
     ok = bool(outer) and any(ast.unparse(s).replace(" ", "") == "genforce=t_frc[:,i:i+1]@unitforce" for s in outer[0].body) \
         and any(ast.unparse(s).replace(" ", "") == "sol=fs.fsolve(genforce,freq,**kwargs)" for s in outer[0].body)
     ctx.check(ok, "solvepsd: one unit-amplitude FRF per force column (t_frc[:, i] at every frequency)", outer[0] if outer else fn)
-    # rms: sqrt( sum( df * (p_k + p_{k+1}) ) / 2 )
-    ev = Evaluator(env={"freqstep": F.sym("df"), "psd": F.sym("p")}, src=ctx.src,
-                   subscript=lambda node, ev: (F.sym("p0") if ast.unparse(node).replace(" ", "") == "psd[j][:,:-1]" else
-                                               F.sym("p1") if ast.unparse(node).replace(" ", "") == "psd[j][:,1:]" else NotImplemented),
-                   call=lambda node, ev: (ev.ev(node.args[0]) if dotted(node.func) == "np.sum" else NotImplemented))
-    last = [n for n in fn.body if isinstance(n, ast.For) and "ndrms" in ast.unparse(n.iter)]
-    if not last:
-        ctx.error("solvepsd: rms loop", fn)
+    # rms^2 = trapezoidal area of the PSD over the frequency vector: evaluated on a generic 4-point grid
+    # (symbolic f0..f3, p0..p3), so any algebraically equivalent formulation is accepted
+    NF = 4
+    fr = tuple(F.sym(f"f{i}") for i in range(NF))
+    pp = tuple(F.sym(f"p{i}") for i in range(NF))
+
+    def sub(node, ev):
+        if ast.unparse(node).replace(" ", "") == "psd[j]":
+            return pp
+        return NotImplemented
+
+    ev = Evaluator(env={"freq": fr}, src=ctx.src, subscript=sub)
+    loops = [n for n in fn.body if isinstance(n, ast.For)]
+    if not loops:
+        raise AnchorError("solvepsd: loops")
+    tail = fn.body[fn.body.index(loops[0]) + 1:]
+    for s_ in tail:
+        if isinstance(s_, ast.For):
+            ev.run(s_.body)
+        elif not isinstance(s_, ast.Return):
+            ev.stmt(s_)
+    st = [x for x in ev.stores if x[0] == "rms"]
+    if not st or is_unknown(st[-1][2]) or isinstance(st[-1][2], tuple):
+        ctx.error("solvepsd: rms formula", tail[0] if tail else fn, repr(st[-1][2]) if st else None)
     else:
-        ev.run(last[0].body)
-        st = [s for s in ev.stores if s[0] == "rms"]
-        if st and not is_unknown(st[-1][2]):
-            val = st[-1][2]
-            want = F.sym("df") * (F.sym("p0") + F.sym("p1")) / 2
-            ok = (val * val).equals(want)
-            ctx.check(ok, "solvepsd: rms^2 = sum df (p_k + p_{k+1}) / 2 (trapezoidal area)", last[0], None if ok else repr(val))
-        else:
-            ctx.error("solvepsd: rms formula", last[0])
-    fs = [s for s in fn.body if isinstance(s, ast.Assign) and ast.unparse(s.targets[0]) == "freqstep"]
-    ok = bool(fs) and ast.unparse(fs[0].value).replace(" ", "") == "np.diff(freq)"
-    ctx.check(ok, "solvepsd: df = diff(freq)", fs[0] if fs else fn)
+        val = st[-1][2]
+        want = F.const(0)
+        for i in range(NF - 1):
+            want = want + (fr[i + 1] - fr[i]) * (pp[i] + pp[i + 1]) / 2
+        ok = (val * val).equals(want)
+        ctx.check(ok, "solvepsd: rms^2 = sum_k (f_{k+1} - f_k)(p_k + p_{k+1})/2 on a generic non-uniform grid (trapezoidal area)", st[-1][3],
+                  None if ok else {"rms^2": repr(val * val), "trapezoid": repr(want)})
+
 
 
 PARTITION_NAMES = {"rb", "el", "rf", "kdof", "nonrf", "_rb", "_el"}
